@@ -161,20 +161,75 @@ pub mod uniremote {
         }
     }
 
-    /// model of `driver::streams::uniremote::StreamUniRemoteH3` (a peer-opened unidirectional H3 stream)
+    /// byte-level receive side for the wire mode below: the first `avail` bytes of `data[..len]` have arrived (the
+    /// harness raises `avail` through the shared `SegCtl`); one byte per poll_read, Pending when nothing more has
+    /// arrived yet. Bytes handed out are gone - like a QUIC receive stream.
+    pub struct SegCtl {
+        pub avail: std::cell::Cell<usize>,
+        pub off: std::cell::Cell<usize>,
+    }
+    pub struct SegReader {
+        pub data: [u8; 8],
+        pub len: usize,
+        pub ctl: *const SegCtl,
+    }
+    impl wtransport_proto::bytes::AsyncRead for SegReader {
+        fn poll_read(
+            self: std::pin::Pin<&mut Self>,
+            _cx: &mut std::task::Context<'_>,
+            buf: &mut [u8],
+        ) -> std::task::Poll<std::io::Result<usize>> {
+            let this = self.get_mut();
+            let ctl = unsafe { &*this.ctl };
+            let off = ctl.off.get();
+            if buf.is_empty() {
+                return std::task::Poll::Ready(Ok(0));
+            }
+            if off < this.len && off < ctl.avail.get() {
+                buf[0] = this.data[off];
+                ctl.off.set(off + 1);
+                std::task::Poll::Ready(Ok(1))
+            } else {
+                std::task::Poll::Pending
+            }
+        }
+    }
+
+    /// wire mode: the REAL typestate reader of wtransport-proto over a byte-level model receive stream - the same
+    /// one-line delegation as the real `StreamUniRemoteH3::read_frame` (driver/streams/mod.rs)
+    pub struct Wire {
+        pub proto: wtransport_proto::stream::uniremote::StreamUniRemoteH3,
+        pub reader: SegReader,
+    }
+
+    /// model of `driver::streams::uniremote::StreamUniRemoteH3` (a peer-opened unidirectional H3 stream): either a
+    /// frame-level script, or (wire mode) the real proto reader over bytes
     pub struct StreamUniRemoteH3 {
         pub script: ControlScript,
         /// 0 Control, 1 QPackEncoder, 2 QPackDecoder, 3 GREASE (Exercise 0x21)
         pub kind: u8,
         pub recv: ModelRecv,
+        pub wire: Option<Wire>,
     }
 
     impl StreamUniRemoteH3 {
         pub fn control(script: ControlScript) -> Self {
-            Self { script, kind: 0, recv: ModelRecv { oks: 0, end: 1, reset_code: VarInt::from_u32(0), reads: 0 } }
+            Self { script, kind: 0, recv: ModelRecv { oks: 0, end: 1, reset_code: VarInt::from_u32(0), reads: 0 }, wire: None }
+        }
+
+        pub fn control_wire(wire: Wire) -> Self {
+            Self {
+                script: ControlScript { events: [CEv::NotConnected; 3], n: 0, reads: 0 },
+                kind: 0,
+                recv: ModelRecv { oks: 0, end: 1, reset_code: VarInt::from_u32(0), reads: 0 },
+                wire: Some(wire),
+            }
         }
 
         pub async fn read_frame<'a>(&mut self) -> Result<Frame<'a>, ProtoReadError> {
+            if let Some(w) = self.wire.as_mut() {
+                return w.proto.read_frame_async(&mut w.reader).await;
+            }
             self.script.next()
         }
 
